@@ -237,6 +237,8 @@ class ValueSpecBase(ValueSpec):
       raise TypeError(f'{self!r} cannot extend {base!r}: '
                       f'None is not allowed in base spec.')
     self._extend(base)  # pytype: disable=wrong-arg-types  # always-use-return-annotations
+    # The copy without the user transform was taken before the extension.
+    self.__dict__.pop('skip_user_transform', None)
     return self
 
   def _extend(self, base: ValueSpec) -> None:
